@@ -68,6 +68,7 @@ def replay(rec, ctx):
 
         def bad(what, detail):
             viol.append({"sig": f"{tag}:{what}", "detail": f"{detail} | history {json.dumps(rec['h'])[:300]}"})
+        seen, seen_before = set(), set()
         for i, e in enumerate(rec["h"]):
             f.calls.clear()
             if e["op"] == "outside":
@@ -91,10 +92,16 @@ def replay(rec, ctx):
             asked = [tuple(int(round((x - X0[k]) / H[k])) for k, x in enumerate(call)) for call in f.calls]
             off = max([abs((x - X0[k]) / H[k] - round((x - X0[k]) / H[k])) for call in f.calls for k, x in enumerate(call)] or [0.0])
             want = [tuple(a) for a in e["asks"]]
-            if asked != want or off > 1e-6:
-                # which nodes the wrapped function is asked for, and in which order, is how the classes work today, not something
-                # the statement demands: recorded, and reported only if a value turns out wrong as well
-                protocol.append((tag, f"evaluation {i} at {pt}: asked nodes {asked[:8]}.. spec {want[:8]}.. (max node offset {off:.1e})"))
+            # the sampling nodes are the lattice of the requested resolution: the nodes the specification says this evaluation
+            # needs must be asked for, and nothing but lattice nodes of its stencil (asked now or earlier); the order in which they
+            # are asked, and asking an already sampled node again, is the implementation's business (recorded only)
+            seen |= set(asked)
+            if not (set(want) <= set(asked) and set(asked) <= set(want) | seen_before) or off > 1e-6:
+                bad("sampling-nodes-differ", f"evaluation {i} at {pt}: asked nodes {asked[:8]}.. spec {want[:8]}.. (max node offset {off:.1e})")
+                break
+            seen_before = set(seen)
+            if asked != want:
+                protocol.append((tag, f"evaluation {i} at {pt}: asked {asked[:8]}.. spec order {want[:8]}.."))
             if dim == 1:
                 exact = e["value128"] / 128.0
                 if abs(val - exact) > 2e-5 * max(1.0, abs(exact)):
@@ -109,9 +116,9 @@ def replay(rec, ctx):
                 bad("value-depends-on-function_boundaries", f"at {pt}: {val!r} vs {vp!r} without bounds")
     if protocol:
         if viol:
-            viol.append({"sig": f"{protocol[0][0]}:sampling-protocol-differs", "detail": protocol[0][1]})
+            viol.append({"sig": f"{protocol[0][0]}:sampling-order-differs", "detail": protocol[0][1]})
         else:
-            return [{"observation": f"{protocol[0][0]}:sampling-protocol-differs"}]
+            return [{"observation": f"{protocol[0][0]}:sampling-order-differs"}]
     return viol
 
 
@@ -228,7 +235,7 @@ def selftest():
     p = POLYS[1]
     rec["h"][0]["value128"] = int(128 * (p[0] + p[1] * 1.5))
     good = replay(rec, None)
-    bad = replay({**rec, "h": [dict(rec["h"][0], asks=[[0], [1], [2]])]}, None)
-    ok = not good and bool(bad)
+    bad = replay({**rec, "h": [dict(rec["h"][0], value128=rec["h"][0]["value128"] + 64)]}, None)
+    ok = not good and any("sig" in x for x in bad)
     print("C14 selftest:", "ok" if ok else "FAILED", good[:1], bad[:1])
     return 0 if ok else 2
